@@ -63,6 +63,7 @@ If(c, name) == IF c THEN {} ELSE {name}
 FailSize(ty, val, obs) ==
   IF obs.out # "ok" THEN {"size_ok"}
   ELSE If(obs.n = Size(ty, val), "size_exact") \cup If(obs.pre = obs.post, "arg_unchanged")
+JSize(ty, val, obs) == [fail |-> FailSize(ty, val, obs), cls |-> "Size>" \o obs.out]
 
 \* ---- EncodeObject ----------------------------------------------------------
 \* do the bytes denote val under the schema of ty, exactly as the reference encoder would
@@ -73,15 +74,21 @@ Denotes(ty, val, bytes) ==
   /\ EncW(StructT(ty), p.w) = bytes
   /\ CanonW(StructT(ty), p.w) = CanonW(StructT(ty), ExpS(ty, val))
 
-FailEncode(ty, val, buflen, obs) ==
+JEncode(ty, val, buflen, obs) ==
   LET need == Size(ty, val) IN
-  If(obs.pre = obs.post, "arg_unchanged") \cup
-  ( IF buflen >= need THEN
-         IF obs.out # "ok" THEN {"enc_ok"}
-         ELSE If(obs.n = need, "enc_n") \cup
-              If(obs.n >= 0 /\ obs.n <= buflen /\ Denotes(ty, val, obs.bytes), "enc_bytes") \cup
-              If(obs.dhi < obs.n, "enc_tail")
-    ELSE If(obs.out = "err", "enc_short_err") \cup If(obs.dhi < buflen, "enc_short_oob") )
+  [ cls |-> (IF buflen >= need THEN "Encode/fits>" ELSE "Encode/short>") \o obs.out,
+    fail |->
+      If(obs.pre = obs.post, "arg_unchanged") \cup
+      ( IF buflen >= need THEN
+             IF obs.out # "ok" THEN {"enc_ok"}
+             ELSE If(obs.n = need, "enc_n") \cup
+                  If(obs.n >= 0 /\ obs.n <= buflen /\ Denotes(ty, val, obs.bytes), "enc_bytes") \cup
+                  If(obs.dhi < obs.n, "enc_tail")
+        ELSE \* the buffer is shorter than the message: an error, nothing written past the buffer.
+             \* A success here returned something that cannot denote the value (it is too short).
+             (IF obs.out = "err" THEN {} ELSE {"enc_short_err", "enc_bytes"}) \cup
+             If(obs.dhi < buflen, "enc_short_oob") ) ]
+FailEncode(ty, val, buflen, obs) == JEncode(ty, val, buflen, obs).fail
 
 \* ---- DecodeObject ----------------------------------------------------------
 IsProto(obs, tid) == obs.out = "err" /\ obs.err.cls = "proto" /\ obs.err.tid = tid
@@ -92,27 +99,33 @@ GenericWF(in) == Skip(TSTRUCT, in, 1, 100000) > 0
 \* allocation allowance: proportional to the input plus a constant
 AllocBound(n) == 64 * n + 65536
 
-FailDecode(ty, in, dest, obs) ==
-  IF obs.out \in {"panic", "crash", "timeout"} THEN {"dec_nocrash"}
+JDecode(ty, in, dest, obs) ==
+  IF obs.out \in {"panic", "crash", "timeout"} THEN [fail |-> {"dec_nocrash"}, cls |-> "Decode/?>" \o obs.out]
   ELSE
   LET r == Dec(ty, in, dest) IN
-  If(obs.inpre = obs.inpost, "in_unchanged") \cup
-  If(obs.alloc <= AllocBound(Len(in)), "dec_alloc") \cup
-  If(obs.us <= 2000000, "dec_time") \cup
-  ( IF r.st = "ok" THEN
-         IF r.d <= AlwaysAcceptedDepth THEN
-              IF obs.out # "ok" THEN {"dec_accept"}
-              ELSE If(obs.n = r.n, "dec_n") \cup
-                   If(r.dup \/ SameStruct(ty, obs.val, r.v), "dec_val")
-         ELSE \* beyond the always-accepted depth: the reference result or a depth-limit error
-              IF obs.out = "ok" THEN If(obs.n = r.n /\ (r.dup \/ SameStruct(ty, obs.val, r.v)), "dec_val")
-              ELSE If(IsProto(obs, DEPTH_LIMIT), "dec_depth")
-    ELSE IF r.st = "missing" THEN
-         IF obs.out = "ok" THEN {"dec_required"}
-         ELSE IF GenericWF(in) /\ MsgDepth(in) <= AlwaysAcceptedDepth
-              THEN If(IsProto(obs, INVALID_DATA) /\ \E nm \in r.names : HasSub(obs.err.msg, nm), "dec_req_class")
-              ELSE {}
-    ELSE If(obs.out = "err", "dec_reject") )
+  [ cls |-> "Decode/" \o r.st \o
+            (IF r.st = "ok" /\ r.dup THEN "+dup" ELSE "") \o
+            (IF r.st = "ok" /\ r.d > AlwaysAcceptedDepth THEN "+deep" ELSE "") \o
+            (IF r.st = "ok" /\ r.n < Len(in) THEN "+trail" ELSE "") \o ">" \o obs.out,
+    fail |->
+      If(obs.inpre = obs.inpost, "in_unchanged") \cup
+      If(obs.alloc <= AllocBound(Len(in)), "dec_alloc") \cup
+      If(obs.us <= 2000000, "dec_time") \cup
+      ( IF r.st = "ok" THEN
+             IF r.d <= AlwaysAcceptedDepth THEN
+                  IF obs.out # "ok" THEN {"dec_accept"}
+                  ELSE If(obs.n = r.n, "dec_n") \cup
+                       If(r.dup \/ SameStruct(ty, obs.val, r.v), "dec_val")
+             ELSE \* beyond the always-accepted depth: the reference result or a depth-limit error
+                  IF obs.out = "ok" THEN If(obs.n = r.n /\ (r.dup \/ SameStruct(ty, obs.val, r.v)), "dec_val")
+                  ELSE If(IsProto(obs, DEPTH_LIMIT), "dec_depth")
+        ELSE IF r.st = "missing" THEN
+             IF obs.out = "ok" THEN {"dec_required"}
+             ELSE IF GenericWF(in) /\ MsgDepth(in) <= AlwaysAcceptedDepth
+                  THEN If(IsProto(obs, INVALID_DATA) /\ \E nm \in r.names : HasSub(obs.err.msg, nm), "dec_req_class")
+                  ELSE {}
+        ELSE If(obs.out = "err", "dec_reject") ) ]
+FailDecode(ty, in, dest, obs) == JDecode(ty, in, dest, obs).fail
 
 \* round trip (C01): the decode of frugal's own output for value orig
 FailRoundTrip(ty, orig, in, obs) ==
